@@ -20,7 +20,8 @@ SetStyle(m)     == multi' = m /\ m \in 0..2 /\ UNCHANGED <<nl, quote, pad, comme
 \* rule names: 0 all bare, 1 all quoted, 2 quoted at the top of the annotation and bare inside nested rule-sets,
 \* 3 the reverse, 4 every second name quoted
 SetQuotes(q)    == quote' = q /\ q \in 0..4 /\ UNCHANGED <<nl, multi, pad, comments, lead, tail>>
-Pad(n)          == pad' = n /\ n \in 0..2 /\ UNCHANGED <<nl, multi, quote, comments, lead, tail>>
+\* padding between tokens: 0-2 blanks, 3 a tab, 4 a blank and a tab
+Pad(n)          == pad' = n /\ n \in 0..4 /\ UNCHANGED <<nl, multi, quote, comments, lead, tail>>
 Comments(n)     == comments' = n /\ n \in 0..4 /\ UNCHANGED <<nl, multi, quote, pad, lead, tail>>
 LeadingBlank(n) == lead' = n /\ n \in 0..1 /\ UNCHANGED <<nl, multi, quote, pad, comments, tail>>
 TrailingBlank(n) == tail' = n /\ n \in {0, 2} /\ UNCHANGED <<nl, multi, quote, pad, comments, lead>>
@@ -32,7 +33,7 @@ Next == \/ \E k \in {"lf", "crlf", "cr"} : SetNewline(k)
 Spec == Init /\ [][Next]_vars
 
 \* every layout is reachable from every other one: the orbit is one connected class
-TypeOK == nl \in {"lf", "crlf", "cr"} /\ multi \in 0..2 /\ quote \in 0..4 /\ pad \in 0..2 /\ comments \in 0..4 /\ lead \in 0..1 /\ tail \in {0, 2}
+TypeOK == nl \in {"lf", "crlf", "cr"} /\ multi \in 0..2 /\ quote \in 0..4 /\ pad \in 0..4 /\ comments \in 0..4 /\ lead \in 0..1 /\ tail \in {0, 2}
 Emit == PrintT(ToJson([nl |-> nl, multi |-> multi, quote |-> quote, pad |-> pad, comments |-> comments,
                        lead_blank |-> lead, tail_blank |-> tail]))
 ===============================================================================
